@@ -287,6 +287,45 @@ def callee_path(t):
 
 # ----------------------------------------------------------------------------- facts
 
+class ResolvingDict(dict):
+    """dict keyed by function path; a missing key is looked up again under the name a renamed /
+    moved function with the same recorded signature has in the analysed tree"""
+
+    def __init__(self, facts, *a, **kw):
+        super().__init__(*a, **kw)
+        self._facts = facts
+
+    def get(self, key, default=None):
+        if dict.__contains__(self, key):
+            return dict.__getitem__(self, key)
+        alt = self._facts.resolve(key) if isinstance(key, str) else None
+        if alt is not None and dict.__contains__(self, alt):
+            return dict.__getitem__(self, alt)
+        return default
+
+    def __missing__(self, key):
+        alt = self._facts.resolve(key) if isinstance(key, str) else None
+        if alt is not None and dict.__contains__(self, alt):
+            return dict.__getitem__(self, alt)
+        raise KeyError(key)
+
+
+_ANCHORS = None
+
+
+def reference_signatures():
+    global _ANCHORS
+    if _ANCHORS is None:
+        import os
+        p = os.path.join(os.path.dirname(os.path.abspath(__file__)), 'anchors.json')
+        try:
+            with open(p) as fh:
+                _ANCHORS = json.load(fh)
+        except OSError:
+            _ANCHORS = {}
+    return _ANCHORS
+
+
 class Facts:
     def __init__(self, path):
         with open(path) as fh:
@@ -294,10 +333,11 @@ class Facts:
         self.j = j
         self.crate = j['crate']
         self.features = j['features']
-        self.bodies = {}
+        self.aliases = {}
+        self.bodies = ResolvingDict(self)
         for b in j['bodies']:
             self.bodies[b['path']] = Body(b, self)
-        self.hir = {h['path']: h for h in j['hir']}
+        self.hir = ResolvingDict(self, {h['path']: h for h in j['hir']})
         self.items = j['items']
         self.adts = {a['path']: a for a in self.items['adts']}
         self.fns = {f['path']: f for f in self.items['fns']}
@@ -312,12 +352,70 @@ class Facts:
             for c in i['calls']:
                 m[c['bb']] = c
             self.inst_calls[i['id']] = m
-        self.insts_of = defaultdict(list)
+        self.insts_of = ResolvingDict(self)
         for i in self.instances:
-            self.insts_of[i['def']].append(i)
+            self.insts_of.setdefault(i['def'], []).append(i)
+
+    def resolve(self, path):
+        """current name of the function the reference tree called `path`, or None"""
+        if path in self.aliases:
+            return self.aliases[path]
+        self.aliases[path] = None
+        if '::{closure' in path:
+            head, tail = path.split('::{closure', 1)
+            alt = self.resolve(head) if head not in self.fns else head
+            res = (alt + '::{closure' + tail) if alt else None
+            self.aliases[path] = res
+            return res
+        ref = reference_signatures()
+        sig = ref.get(path)
+        if sig is None or path in self.fns:
+            return None
+        cands = []
+        for p, fn in self.fns.items():
+            if p in ref:
+                continue        # an existing function keeps its own identity
+            if [t['s'] for t in fn['inputs']] == sig['inputs'] and fn['output']['s'] == sig['output']:
+                cands.append(p)
+        same = [p for p in cands if p.rsplit('::', 1)[0] == path.rsplit('::', 1)[0]]
+        pick = same[0] if len(same) == 1 else (cands[0] if len(cands) == 1 else None)
+        self.aliases[path] = pick
+        return pick
 
     def body(self, path):
         return self.bodies.get(path)
+
+    def used_aliases(self):
+        return {k: v for k, v in self.aliases.items() if v}
+
+    @property
+    def rev_alias(self):
+        """current path -> reference path, for every reference function that is missing under its
+        recorded name but has a unique same-signature successor"""
+        if getattr(self, '_rev', None) is None:
+            rev = {}
+            for r in reference_signatures():
+                if r not in self.fns:
+                    a = self.resolve(r)
+                    if a:
+                        rev[a] = r
+            self._rev = rev
+        return self._rev
+
+    def ref_path(self, path):
+        """the name the reference tree used for the function now called `path`"""
+        if path is None:
+            return None
+        if '::{closure' in path:
+            head, tail = path.split('::{closure', 1)
+            return self.rev_alias.get(head, head) + '::{closure' + tail
+        return self.rev_alias.get(path, path)
+
+    def ref_name(self, callee):
+        """reference (last path segment) name of a callee descriptor"""
+        if not callee:
+            return None
+        return self.ref_path(callee['path']).rsplit('::', 1)[-1] if callee.get('local') else callee['name']
 
     def find_bodies(self, pred):
         return [b for p, b in sorted(self.bodies.items()) if pred(p)]
